@@ -14,7 +14,7 @@ const c12env = "VERIF_C12_ENV"
 
 func VerifC12_Precedence() {
 	vNativeReset()
-	vBound("digits", 15) // numeral range boundaries are C01's subject
+	vBound("digits", 15)       // numeral range boundaries are C01's subject
 	kind := vInt("kind", 0, 6) // the six scalar kinds, 6 = bool
 	envState := vInt("env", 0, 2)
 	cli := vInt("cli", 0, 2) // 0 absent, 1 --name=v (bool: --name), 2 --name v
